@@ -77,7 +77,7 @@ def run_one(path, func, line, pin, cond_timeout, path_timeout, extra_env=None):
            "--per_path_timeout", str(path_timeout), f"{path}:{line}"]
     t = time.time()
     try:
-        p = subprocess.run(cmd, env=env, capture_output=True, text=True, timeout=cond_timeout * 1.5 + 60, cwd=VERIF)
+        p = subprocess.run(cmd, env=env, capture_output=True, text=True, timeout=cond_timeout * 2.5 + 180, cwd=VERIF)
         out = p.stdout + p.stderr
     except subprocess.TimeoutExpired as e:
         out = "error: harness process timeout"
